@@ -772,7 +772,8 @@ fn run_c08(args: &Args, corr: &mut Corr, rep: &mut Report) {
                             }
                             if len == 0 && ev.out_size > 2 { rep.viol("header:c08:guard-hypothesis", "an empty last block took more than 2 bytes", case.clone()); }
                         }
-                        if len > 0 && k + 1 < nev && len + 2 < (1 << 14) { rep.viol("header:c08:blocks-hypothesis", &format!("a non-final meta-block of only {} bytes without a flush", len), case.clone()); }
+                        // (the first invocation also stores the 2-byte catable prelude: its `len` is not one meta-block)
+                        if !first && len > 0 && k + 1 < nev && len + 2 < (1 << 14) { rep.viol("header:c08:blocks-hypothesis", &format!("a non-final meta-block of only {} bytes without a flush", len), case.clone()); }
                         if len > 0 { rep.count("c08.stream.metablocks"); }
                         first = false;
                     }
@@ -789,6 +790,18 @@ pub fn run_cmd(args: &Args) {
     let mut corr = Corr::new(&args.out);
     let mut rep = Report::default();
     let what = args.rest.first().map(|s| s.as_str()).unwrap_or("all");
+    if what == "probe" {
+        // replay aid: `bvh header probe <q> <lgwin> <lw> <cat> <app> <magic> <hint> <n> <content kind> [chunk]`
+        let a: Vec<u64> = args.rest[1..].iter().map(|x| x.parse().unwrap_or(0)).collect();
+        let c = Cfg { q: a[0] as i32, lgwin: a[1] as i32, lw: a[2] != 0, cat: a[3] != 0, app: a[4] != 0, dict: a[3] == 0, magic: a[5] != 0, hint: a[6] };
+        let input = content(a[8] as u32, a[7] as usize, &mut Rng::new(args.seed));
+        let chunk = if a.len() > 9 { a[9] as usize } else { usize::MAX / 2 };
+        match stream_encode(&c.params(), &input, chunk) {
+            Ok(out) => println!("n={} stream={} bound={} first={}", input.len(), out.len(), BrotliEncoderMaxCompressedSize(input.len()), hex(&out[..out.len().min(40)])),
+            Err(e) => println!("error {}", e),
+        }
+        return;
+    }
     if what == "c15" || what == "all" { run_c15(args, &mut corr, &mut rep); }
     if what == "c08" || what == "all" { run_c08(args, &mut corr, &mut rep); }
     corr.finish();
